@@ -402,12 +402,21 @@ func (w *world) concurrent() {
 	if len(fillers) > 0 {
 		probeSet = append(probeSet, boundaries([]prefix{fillers[0], fillers[len(fillers)-1], filler(300), filler(320)})...)
 	}
+	lastOf := make([]uint32, nReaders)
 	for ri := 0; ri < nReaders; ri++ {
 		ri := ri
 		n := 2 + ch("reader.ops", 12)
+		// a reader keeps coming back to one address (a cached answer for it must
+		// not outlive an update), and looks at others in between
+		hot := probeSet[ch("r.hot", len(probeSet))]
+		lastOf[ri] = hot
 		simrt.GoNamed(fmt.Sprintf("reader%d", ri), "harness", func() {
 			for i := 0; i < n; i++ {
-				a := probeSet[ch("r.addr", len(probeSet))]
+				a := hot
+				if ch("r.other", 3) == 0 {
+					a = probeSet[ch("r.addr", len(probeSet))]
+				}
+				lastOf[ri] = a
 				l := lookup{a: a, by: ri}
 				l.inv = simrt.Stamp()
 				active := writersLeft > 0
@@ -471,7 +480,11 @@ func (w *world) concurrent() {
 		}
 	}
 	w.model = final
-	for _, a := range probeSet {
+	// first the addresses the readers looked at last, each twice, then the rest
+	finalProbes := append([]uint32{}, lastOf...)
+	finalProbes = append(finalProbes, lastOf...)
+	finalProbes = append(finalProbes, probeSet...)
+	for _, a := range finalProbes {
 		got := w.f.Contains(ip4(a))
 		if want := w.modelContains(a); got != want {
 			w.violate("C12", "final-state", fmt.Sprintf("after all writers finished: Contains(%s) = %v, sequential application of each writer's operations gives %v", ip4(a), got, want), "final-state")
